@@ -17,7 +17,8 @@ def finiteOrds (g : G) : List (Int × Int) := (ordsOf g).filterMap F64.dyadic
 
 def seqOf (toI : UInt64 → Int) (s : CSeq) : VSeq :=
   { pts := s.pts.map fun c => if finC c then ⟨toI c.x, toI c.y⟩ else ⟨0, 0⟩,
-    bad := s.pts.findIdx? (fun c => !finC c) }
+    bad := s.pts.findIdx? (fun c => !finC c),
+    fin := s.pts.map finC }
 
 def leafSeq : G → Option CSeq
   | .point s | .lineString s | .linearRing s => some s
